@@ -223,6 +223,8 @@ def rule_jerk_homogeneity(ctx):
 
 def run(ctx):
     rule_jerk_homogeneity(ctx)
+    from . import c08
+    c08.rule_direction(ctx)               # R08.8: sub-step loops (user ODEs, TRACE/MERCURIUS encounters) reach the step boundary for either direction
     rule_bs_coupling(ctx)
     rule_dispatch(ctx)
     rule_compositions(ctx)
